@@ -16,6 +16,7 @@ type entry struct {
 
 var registry = map[string]entry{
 	"C03": {"exploration", props.C03},
+	"C05": {"exploration", props.C05},
 	"C12": {"exploration", props.C12},
 	"C19": {"fault_enumeration", props.C19},
 	"C20": {"exploration", props.C20},
